@@ -215,10 +215,14 @@ impl Reasm {
             return None;
         }
         if exp.too_big || exp.unaligned {
+            // A rejected fragment must not influence what is returned later ("inconsistent fragments are
+            // rejected ... the original payload is returned on the delivery that supplies the last
+            // missing byte and nothing before"): the stream state stays exactly as it was. Only the
+            // timestamp is remembered, because which timestamp `retain` judges is not documented.
             if self.has_any_state() {
                 self.seen_ts |= 1 << (ts & 7);
                 if !self.loose {
-                    self.go_loose(true);
+                    self.st.ts_mask |= 1 << (ts & 7);
                 }
             }
             return None;
@@ -227,7 +231,8 @@ impl Reasm {
         self.seen_ts |= 1 << (ts & 7);
         if !self.loose {
             match &exp.core {
-                Core::Conflict { .. } => self.go_loose(true),
+                // rejected: state untouched (see above)
+                Core::Conflict { .. } => self.st.ts_mask |= 1 << (ts & 7),
                 Core::Ambiguous(_) => {
                     self.go_loose(false);
                     if completed {
